@@ -108,6 +108,23 @@ func c09run(setup string, argv []string, onPid func(int)) (runner.Result, error)
 	return runner.Result{}, fmt.Errorf("unknown setup %s", setup)
 }
 
+// c09cancelled runs a pausing program in the pooled container and cancels the call once the program is running.
+func c09cancelled(setup string) (runner.Result, error) {
+	c, err := c09pool.get()
+	if err != nil {
+		return runner.Result{}, err
+	}
+	ctx, cancel := context.WithCancel(context.Background())
+	defer cancel()
+	p := execveParam([]string{"/probe/burn", "pause"})
+	p.SyncAfterExec = setup == "container-syncafter"
+	p.SyncFunc = func(pid int) error {
+		time.AfterFunc(30*time.Millisecond, cancel)
+		return nil
+	}
+	return c.Execve(ctx, p), nil
+}
+
 func argv0base(p string) string {
 	if i := strings.LastIndex(p, "/"); i >= 0 {
 		return p[i+1:]
@@ -137,7 +154,7 @@ func init() {
 		spec := &mc.Spec{
 			Level: "exploration",
 			Rule: "runner set-up × {exit code, self-raised signal (raw kill, default disposition), kernel-forced fault, SIGKILL from the host while running, " +
-				"main action combined with a child that exits/is signalled before, while or after the main process ends, main process stopped (SIGSTOP) and continued by a child before it ends}; oracle = README status table; " +
+				"main action combined with a child that exits/is signalled before, while or after the main process ends, main process stopped (SIGSTOP) and continued by a child before it ends, an ordinary exit after 1..2 caller-cancelled runs in the same container}; oracle = README status table; " +
 				"non-trivial: anything but exit 0; distinct = (set-up, way of ending, observed status/exit value)",
 			Bound: map[string]any{"exit_codes": len(codes), "signals": c09terminating, "faults": faults, "setups": setups,
 				"namespace_runner_scope": "its program is pid 1 of a pid namespace: the kernel discards default-disposition signals it raises itself, so self-raised signals are not in that runner's domain (faults, host SIGKILL and exit codes are)"},
@@ -150,13 +167,25 @@ func init() {
 		spec.Fini = func() { c09pool.drop(); cleanupTmp() }
 		spec.Body = func(x *mc.X) {
 			setup := x.Pick("setup", setups...)
-			kind := x.Pick("kind", "exit", "raise", "fault", "hostkill", "child", "stopcont")
+			kind := x.Pick("kind", "exit", "raise", "fault", "hostkill", "child", "stopcont", "after-cancelled-runs")
 			var argv []string
 			var expS runner.Status
 			expE := -1
 			var desc string
 			var onPid func(int)
+			cancelledBefore := 0
 			switch kind {
+			case "after-cancelled-runs":
+				// history: the same environment first serves 1..2 runs that the caller cancels, then an ordinary program
+				cancelledBefore = 1 + x.Choose(2, "cancelled-runs")
+				c := []int{0, 3}[x.Choose(2, "code")]
+				argv = []string{probe("burn"), "exit", strconv.Itoa(c)}
+				expS, expE = c09expectExit(c)
+				desc = fmt.Sprintf("exit %d after %d cancelled run(s) in the same environment", c, cancelledBefore)
+				if setup != "container" && setup != "container-syncafter" {
+					x.Outcome("n/a:runner-keeps-no-environment")
+					return
+				}
 			case "exit":
 				c := codes[x.Choose(len(codes), "code")]
 				argv = []string{probe("burn"), "exit", strconv.Itoa(c)}
@@ -229,6 +258,23 @@ func init() {
 			}
 			if x.Dry() {
 				return
+			}
+			for i := 0; i < cancelledBefore; i++ {
+				x.OnHang("C09/"+setup+"/cancelled-run-never-returns", fmt.Sprintf("cancelled run %d of %s never returned", i+1, desc))
+				cr, err := c09cancelled(setup)
+				if err != nil {
+					x.Failf("C09/harness", "cannot run: %v", err)
+					return
+				}
+				if cr.Status != runner.StatusTimeLimitExceeded {
+					c09pool.drop()
+					x.Failf(fmt.Sprintf("C09/%s/cancelled-run-status-%s", setup, statusName(cr.Status)), "a run cancelled by its caller under %s: status %s (exit value %d, error %q), table says Time Limit Exceeded",
+						setup, statusName(cr.Status), cr.ExitStatus, cr.Error)
+					return
+				}
+			}
+			if cancelledBefore > 0 {
+				x.OnHang("C09/"+setup+"/run-after-cancelled-runs-never-returns", desc+": the call never returned")
 			}
 			res, err := c09run(setup, argv, onPid)
 			if err != nil {
